@@ -147,6 +147,7 @@ DRIVERS = {"vert-exact": ("harness.checks.c12", "exact_trace", "VertTrace", FAMI
 
 def run(tier, seed):
     rep = Report("C12", tier, seed)
+    rep.add_proof("LookupIdentityAll")
     rng = random.Random(seed)
     rep.add_mc("MC_Vertical", tlc.model_check("MC_Vertical", "MC_Vertical.cfg" if tier == "thorough" else "MC_Vertical_quick.cfg",
                                               must_take=["GrowCol", "Probe", "GrowC"]))
